@@ -265,7 +265,28 @@ def theorem_names(thm_file):
     return names
 
 
+_proof_memo = {}
+
+
 def proof_step(module, extra_targets=()):
+    """memoised per process (the thorough tier runs several rounds on one regenerated model)"""
+    key = (module, tuple(extra_targets), _gen_stamp())
+    if key not in _proof_memo:
+        _proof_memo[key] = _proof_step(module, extra_targets)
+    return _proof_memo[key]
+
+
+def _gen_stamp():
+    """the generated Lean files as they are now (a round that regenerates them differently proves again)"""
+    h = hashlib.sha1()
+    gd = os.path.join(LEAN, "XmlRsModel", "Gen")
+    for f in sorted(os.listdir(gd)):
+        if f.endswith(".lean"):
+            h.update(open(os.path.join(gd, f), "rb").read())
+    return h.hexdigest()
+
+
+def _proof_step(module, extra_targets=()):
     """Build XmlRsModel.Thm.<module>, audit axioms of every theorem in it, grep for forbidden words.
 
     Returns dict(ok, obligations, discharged, failed: [names], log, axioms: {name: [..]})."""
@@ -339,7 +360,17 @@ def proof_step(module, extra_targets=()):
     return res
 
 
+_lc_memo = {}
+
+
 def leanchecker(module):
+    key = (module, _gen_stamp())
+    if key not in _lc_memo:
+        _lc_memo[key] = _leanchecker(module)
+    return _lc_memo[key]
+
+
+def _leanchecker(module):
     rc, out = sh(["lake", "env", "leanchecker", "XmlRsModel.Thm." + module], cwd=LEAN, timeout=3000)
     return rc == 0, out[-2000:]
 
@@ -378,6 +409,7 @@ class Check:
                     "disagreements_checked": 0}
         self.assumptions = []
         self._distinct = set()
+        self._proved = set()
 
     def count(self, case, nontrivial=True):
         self.cov["evaluations"] += 1
@@ -388,6 +420,10 @@ class Check:
             self.cov["samples"].append(case if isinstance(case, (str, int, list, dict)) else repr(case))
 
     def proof(self, res, checker_cmd):
+        key = tuple(res.get("theorems", []))
+        if key in self._proved:      # a later round of the thorough tier: the same obligations, not new ones
+            return
+        self._proved.add(key)
         self.cov["obligations"] += res["obligations"]
         self.cov["discharged"] += res["discharged"]
         self.cov["checker_cmd"] = checker_cmd
@@ -410,7 +446,7 @@ class Check:
         ev = {
             "property_id": self.prop,
             "tier": self.tier,
-            "seed": seed(),
+            "seed": int(os.environ.get("VERIF_BASE_SEED", seed())),
             "level": "proof",
             "coverage": self.cov,
             "assumptions": self.assumptions,
